@@ -316,6 +316,9 @@ CATALOG: List[Cfg] = [
        kind="awkward", keys_quick=2, keys_thorough=4, time_limit=1),
     _c("mmst-12-T6", "mmst", "MMST(G.mmst.SplitRandomGenerator(12, 18, 4, 2, 3, 6), time_limit=6)",
        kind="awkward", keys_quick=1, keys_thorough=2, time_limit=6, quick=False),
+    # constructor time limit shorter than the generator's buffer (`max_step`): the two must not be conflated
+    _c("mmst-12-T2-buf5", "mmst", "MMST(G.mmst.SplitRandomGenerator(12, 18, 4, 2, 3, 5), time_limit=2)",
+       kind="awkward", keys_quick=1, keys_thorough=3, time_limit=2),
     _c("mmst-default", "mmst", "MMST()", kind="default", depth=1, keys_quick=1, keys_thorough=1,
        time_limit=70, quick=False),
     # ---------------- MultiCVRP
